@@ -341,6 +341,21 @@ class NodeSuite(Suite):
         def ist(j):
             return ctx.instances[ident(j)].state.name
 
+        def rpc_gate(e):
+            """ the XML-RPC layer only lets these requests through in their documented states / with checked
+            parameters (rpcinterface.end_sync, restart, shutdown): emulate the gate, return None when refused """
+            fsm_code = sm.state.value
+            if e[0] == 'ReqEndSync':
+                m = e[1]
+                if fsm_code != 1 or not cfg['user'] or sm.master_identifier:
+                    return None
+                if m and (ident(m) not in ctx.instances or ist(m) != 'RUNNING'):
+                    return None
+                return e
+            if e[0] in ('ReqRestart', 'ReqShutdown'):
+                return e if fsm_code in (3, 4, 5, 6, 7) else None
+            return e
+
         def coherent_state(j, now):
             """ a publication a well-behaved peer j would send: same view of instances as the local one
             (unstable states settled), the local choice of Master (or the rule's choice), a state that follows """
@@ -441,6 +456,12 @@ class NodeSuite(Suite):
                         e = ('ReqEndSync', rng.choice([0, 1, j]), now, self.gen_orcs(rng, busy_p))
                 else:
                     e = ('ReqEndSync', rng.choice([0, 1, j]), now, self.gen_orcs(rng, busy_p))
+            e = rpc_gate(e)
+            if e is None:
+                # refused by the XML-RPC gate: replaced by a local tick so that the history still advances
+                now += 5
+                e = ('LocalTick', cnt, now, self.gen_orcs(rng, busy_p))
+                cnt += 1
             evs.append(e)
             tag, _, _, _ = run.apply(e)
             if tag == 'crash':
